@@ -6,6 +6,11 @@ package main
 //                        two numbers differ.
 //   dogfoodInitRebuildsHolds  x/dogfood InitGenesis calls delegationKeeper.IncrementUndelegationHoldCount inside the loop
 //                        over genState.UndelegationMaturities (F-18b repair)
+//   operatorPrevKeysRebuildReverse  x/operator SetAllPrevConsKeys writes KeyForChainIDAndConsKeyToOperator (F-18c repair)
+//   operatorGenesisKeepsCommissionTime  the assignment of Commission.UpdateTime in setOperatorInfo is guarded by the
+//                        genesis flag and InitGenesis passes it (F-18g repair)
+//   dogfoodExportUsesStoredValidators  x/dogfood ExportGenesis reads GetAllExocoreValidators and does not go through
+//                        IterateBondedValidatorsByPower (F-18h repair)
 //   genesisExportCalls   per module of C18: the keeper methods called by ExportGenesis, in order
 //   genesisInitCalls     per module of C18: the keeper methods called by InitGenesis, in order
 
@@ -182,6 +187,84 @@ func genesisGen(repo string, emit func(name, leanDef string, err error)) {
 			return true
 		})
 		emit("dogfoodInitRebuildsHolds", "/-- x/dogfood InitGenesis re-places the hold of every undelegation it imports into the maturity queue -/\ndef dogfoodInitRebuildsHolds : Bool := "+fmt.Sprint(rebuilds), nil)
+	}()
+	// ---- F-18c / F-18g / F-18h repairs
+	callsIn := func(fd *ast.FuncDecl, name string) bool {
+		found := false
+		ast.Inspect(fd.Body, func(n ast.Node) bool {
+			if c, ok := n.(*ast.CallExpr); ok && exprText(c.Fun) == name {
+				found = true
+			}
+			return true
+		})
+		return found
+	}
+	func() {
+		f, err := parse("x/operator/keeper/consensus_keys.go")
+		if err != nil {
+			emit("operatorPrevKeysRebuildReverse", "", err)
+			return
+		}
+		fd := findFunc(f, "Keeper.SetAllPrevConsKeys")
+		if fd == nil {
+			emit("operatorPrevKeysRebuildReverse", "", fmt.Errorf("SetAllPrevConsKeys not found"))
+			return
+		}
+		emit("operatorPrevKeysRebuildReverse", "/-- x/operator SetAllPrevConsKeys also writes the ChainIDAndConsKeyToOperator reverse lookup -/\ndef operatorPrevKeysRebuildReverse : Bool := "+fmt.Sprint(callsIn(fd, "types.KeyForChainIDAndConsKeyToOperator")), nil)
+	}()
+	func() {
+		f, err := parse("x/operator/keeper/operator.go")
+		g, err2 := parse("x/operator/keeper/genesis.go")
+		if err != nil || err2 != nil {
+			emit("operatorGenesisKeepsCommissionTime", "", fmt.Errorf("%v %v", err, err2))
+			return
+		}
+		keeps := false
+		if fd := findFunc(f, "Keeper.setOperatorInfo"); fd != nil {
+			// the UpdateTime assignment must sit inside an if whose condition mentions the genesis flag
+			ast.Inspect(fd.Body, func(n ast.Node) bool {
+				is, ok := n.(*ast.IfStmt)
+				if !ok {
+					return true
+				}
+				mentions := false
+				ast.Inspect(is.Cond, func(m ast.Node) bool {
+					if id, ok := m.(*ast.Ident); ok && id.Name == "genesis" {
+						mentions = true
+					}
+					return true
+				})
+				assigns := false
+				ast.Inspect(is.Body, func(m ast.Node) bool {
+					if as, ok := m.(*ast.AssignStmt); ok && len(as.Lhs) == 1 && exprText(as.Lhs[0]) == "info.Commission.UpdateTime" {
+						assigns = true
+					}
+					return true
+				})
+				if mentions && assigns {
+					keeps = true
+				}
+				return true
+			})
+		}
+		if ig := findFunc(g, "Keeper.InitGenesis"); ig == nil || !callsIn(ig, "k.setOperatorInfo") {
+			keeps = false
+		}
+		emit("operatorGenesisKeepsCommissionTime", "/-- x/operator InitGenesis keeps an exported commission update_time -/\ndef operatorGenesisKeepsCommissionTime : Bool := "+fmt.Sprint(keeps), nil)
+	}()
+	func() {
+		f, err := parse("x/dogfood/keeper/genesis.go")
+		if err != nil {
+			emit("dogfoodExportUsesStoredValidators", "", err)
+			return
+		}
+		fd := findFunc(f, "Keeper.ExportGenesis")
+		if fd == nil {
+			emit("dogfoodExportUsesStoredValidators", "", fmt.Errorf("x/dogfood ExportGenesis not found"))
+			return
+		}
+		stored := callsIn(fd, "k.GetAllExocoreValidators") && !callsIn(fd, "k.IterateBondedValidatorsByPower")
+		emit("dogfoodExportUsesStoredValidators", "/-- x/dogfood ExportGenesis writes the validators it stores, not the operators' current keys -/\ndef dogfoodExportUsesStoredValidators : Bool := "+fmt.Sprint(stored), nil)
 	}()
 	// ---- export / init call lists
 	mods := []struct{ name, file, recv, exp, ini string }{
